@@ -25,7 +25,7 @@ noncomputable instance : HasFloor ℝ := ⟨fun x => ((⌊x⌋ : ℤ) : ℝ)⟩
 
 @[simp] theorem k180_eq : (k180 : ℝ) = 180 := by simp [k180]
 @[simp] theorem k360_eq : (k360 : ℝ) = 360 := by simp [k360]
-@[simp] theorem twoK_eq : (twoK : ℝ) = 2 := by simp [twoK]
+@[simp] theorem twoK_eq : (twoKB : ℝ) = 2 := by simp [twoKB]
 
 /-! ### `arctan2` in degrees -/
 
@@ -555,7 +555,7 @@ theorem recompose_similarity {g : FitGeom} (hg : g = .rscale ∨ g = .rshift) (r
 
 /-! ### `_compute_stat`: the sums in closed form -/
 
-/-- squared Euclidean norm of a residual -/
+/-- squared Euclidean normB of a residual -/
 def nsq (r : ℝ × ℝ) : ℝ := r.1 ^ 2 + r.2 ^ 2
 
 /-- `Σ_k w_k f(r_k)` over the common prefix of weights and residuals -/
@@ -565,8 +565,8 @@ def wsum (w : List ℝ) (res : List (ℝ × ℝ)) (f : ℝ × ℝ → ℝ) : ℝ
 /-- plain mean `(1/n) Σ_k f(r_k)` -/
 noncomputable def avg (res : List (ℝ × ℝ)) (f : ℝ × ℝ → ℝ) : ℝ := (res.map f).sum / (res.length : ℝ)
 
-theorem norm2_eq (r : ℝ × ℝ) : norm2 r = Real.sqrt (nsq r) := by
-  unfold norm2 nsq
+theorem norm2_eq (r : ℝ × ℝ) : norm2B r = Real.sqrt (nsq r) := by
+  unfold norm2B nsq
   show Real.sqrt _ = _
   congr 1; ring
 
@@ -616,10 +616,10 @@ theorem statUnweighted_eq (res : List (ℝ × ℝ)) :
       ⟨Real.sqrt (avg res nsq), avg res fun r => Real.sqrt (nsq r),
        Real.sqrt (avg res fun r => nsq (r.1 - avg res (·.1), r.2 - avg res (·.2)))⟩ := by
   unfold statUnweighted
-  have e1 : sumL (res.map fun r => twoK * (r.1 * r.1) + twoK * (r.2 * r.2)) / ((2 * res.length : ℕ) : ℝ)
+  have e1 : sumL (res.map fun r => twoKB * (r.1 * r.1) + twoKB * (r.2 * r.2)) / ((2 * res.length : ℕ) : ℝ)
       = avg res nsq := by
     rw [sumL_eq_sum]
-    have : (res.map fun r : ℝ × ℝ => twoK * (r.1 * r.1) + twoK * (r.2 * r.2))
+    have : (res.map fun r : ℝ × ℝ => twoKB * (r.1 * r.1) + twoKB * (r.2 * r.2))
         = res.map fun r => 2 * nsq r := by
       apply List.map_congr_left
       intro r _
@@ -628,7 +628,7 @@ theorem statUnweighted_eq (res : List (ℝ × ℝ)) :
     unfold avg
     push_cast
     exact mul_div_mul_left _ _ two_ne_zero
-  have e2 : meanL (res.map norm2) = avg res fun r => Real.sqrt (nsq r) := by
+  have e2 : meanL (res.map norm2B) = avg res fun r => Real.sqrt (nsq r) := by
     rw [meanL_map]
     congr 1
     funext r
@@ -674,7 +674,7 @@ theorem statWeighted_eq (res : List (ℝ × ℝ)) (weights : List ℝ) (hn : wei
     rw [id1, dotL_comp]; rfl
   have m2 : dotL w (res.map (·.2)) = wsum w res (·.2) := by
     rw [id2, dotL_comp]; rfl
-  have m3 : dotL w (res.map norm2) = wsum w res norm2 := by
+  have m3 : dotL w (res.map norm2B) = wsum w res norm2B := by
     rw [dotL_map]; rfl
   rw [m1, m2, m3]
   simp only [dotL_comp]
@@ -684,7 +684,7 @@ theorem statWeighted_eq (res : List (ℝ × ℝ)) (weights : List ℝ) (hn : wei
     congr 2
     funext r
     simp only [nsq]; ring
-  · show wsum w res norm2 = _
+  · show wsum w res norm2B = _
     congr 1
     funext r
     exact norm2_eq r
